@@ -56,6 +56,11 @@ EXTRA_DECLS = [
 def split_decls(text):
     """Split the YAML text into (head, [top-level declaration blocks])."""
     head, _, rest = text.partition("declarations:\n")
+    # top-level sections after the declarations (patterns: ...) stay where they are
+    m = re.search(r"^[A-Za-z_]+:", rest, re.M)
+    tail = ""
+    if m:
+        rest, tail = rest[:m.start()], rest[m.start():]
     blocks = []
     cur = []
     for line in rest.split("\n"):
@@ -66,7 +71,7 @@ def split_decls(text):
             cur.append(line)
     if cur:
         blocks.append("\n".join(l for l in cur if l.strip()) + "\n")
-    return head + "declarations:\n", blocks
+    return head + "declarations:\n", blocks, tail
 
 
 def make_variant(rng, base_text, index):
@@ -74,7 +79,7 @@ def make_variant(rng, base_text, index):
     table) and toggle options that keep the wrapped API unchanged."""
     if index == 0:
         return base_text, {"variant": "base"}
-    head, blocks = split_decls(base_text)
+    head, blocks, tail = split_decls(base_text)
     classes = [b for b in blocks if b.startswith("- decl: class")]
     funcs = [b for b in blocks if not b.startswith("- decl: class")]
     extras = rng.sample(EXTRA_DECLS, rng.randint(0, len(EXTRA_DECLS)))
@@ -95,7 +100,7 @@ def make_variant(rng, base_text, index):
     d = yaml.safe_load(head)
     d["options"].update(opts)
     head2 = yaml.safe_dump({k: v for k, v in d.items() if k != "declarations"}, sort_keys=False)
-    text = head2 + "declarations:\n" + "".join(classes + funcs)
+    text = head2 + "declarations:\n" + "".join(classes + funcs) + tail
     return text, {"variant": "v%d" % index, "options": opts, "extras": len(extras)}
 
 
@@ -255,8 +260,12 @@ def res_matches(expected, got, driver):
 
 
 def asan_kind(stderr):
-    m = re.search(r"ERROR: AddressSanitizer: ([a-zA-Z-]+)", stderr)
+    m = re.search(r"ERROR: AddressSanitizer: ([a-zA-Z-]+)( double-free| free on address which was not malloc)?", stderr)
     if m:
+        kind = m.group(1)
+        if kind == "attempting":
+            kind = "double-free" if "double-free" in (m.group(2) or "") else "bad-free"
+        m = re.match("(.*)", kind)
         # the innermost frame inside generated code names the call site (part of the signature)
         for line in stderr.split("\n"):
             f = re.match(r"\s+#\d+ 0x[0-9a-f]+ in (\S+) .*/(wrap|util|py)[A-Za-z0-9_]*\.(c|cpp|f)\b", line)
@@ -472,7 +481,8 @@ class C06Engine(object):
         prev = None
         for op in spec["ops"][:max(nchk, 1)]:
             st["op_kinds"][op[0]] = st["op_kinds"].get(op[0], 0) + 1
-            if op[0] in ("bad_vec_sum", "bad_arg", "nomem", "item_delete", "cap_delete", "cap_scope"):
+            if op[0] in ("bad_vec_sum", "bad_arg", "bad_arr_sum", "nomem", "item_delete", "item_release",
+                         "cap_delete", "cap_scope"):
                 st["faults"][op[0]] = st["faults"].get(op[0], 0) + 1
             # distinct (abstract state, op kind): abstract state = previous op kind + #live handles bucket
             self.states.add((spec["driver"], prev, op[0]))
@@ -666,6 +676,9 @@ class C06Engine(object):
                                           st["violating"], st["inconclusive"], time.time() - self.t0))
         if code == 0:
             never = [d for d in DRIVERS if not any(b.ok.get(d) for b in self.builds.values())]
+            base_ok = self.builds.get(0) and "generate" not in self.builds[0].errors
+            if base_ok and any("generate" in b.errors for b in self.builds.values()):
+                never.append("variant generation")
             if nbuilt == 0 or st["sequences"] == 0 or never:
                 print("HARNESS-ERROR: driver(s) %s could not be built for any variant (generated code does not "
                       "compile?): %s" % (never, json.dumps(st["build_errors"])[:1500]))
